@@ -7,7 +7,7 @@ import CbiVerif.Drv.C06
 /-! driver op for the composed C06 pipeline (source text → setmap / coverage):
 `{"op":"c06text","files":[{"path":[..],"text":str}],"plats":[{"name":str,"entries":[{"file":[..],"defs":[..]}]}]}` →
 `{"model": {"ok":{"files":[{"path":[..],"nodes":[[[plat..],num_lines,[line..]],..]}],"setmap":..,"summary":..,"coverage":..}} | {"exc":str},
-  "spec": {"files":[{"guard":b,"k3":b,"counted":[..],"nodes":[[isDirective,[line..]],..],"attr":[[line,[plat..]],..]|null,
+  "spec": {"files":[{"guard":b,"counted":[..],"nodes":[[isDirective,[line..]],..],"attr":[[line,[plat..]],..]|null,
                      "accepts":b,"pp_agree":b}], "wf":b, "sloc":n}}`
 `model` = `C06L.analyseL` (`Model/C06Fortran.lean`: the front end is chosen by the extension of the file — C family: `C06C.parseSrc`,
   free-form Fortran: `C06L.fParseSrc`, the C17 model; on a code base of C-family files it IS `C06C.analyse`,
@@ -65,7 +65,7 @@ def specFile (plats : List Plat) (f : SrcFile) : Json :=
                   (match PP.referenceNodes p.pnodes e.defs with | .ok r => r.err.isNone && !r.c23 | .error _ => false))
     | .error _ => (Json.null, false)
   Json.mkObj [("lang", Json.str (langName lang)),
-    ("guard", Json.bool (guardL f)), ("k3", Json.bool (lang == .cFamily && CLexRef.k3 f.text)),
+    ("guard", Json.bool (guardL f)),
     ("counted", natsJson (countedL f)),
     ("nodes", Json.arr ((specNodesL f).map fun (x : Bool × List Nat) => Json.arr #[Json.bool x.1, natsJson x.2]).toArray),
     ("attr", attr), ("accepts", Json.bool accepts),
@@ -93,7 +93,7 @@ def handle (j : Json) : Json :=
   let flag := fun (k : String) (x : Json) => (x.getObjValAs? Bool k).toOption.getD false
   Json.mkObj [("model", model),
     ("spec", Json.mkObj [("files", Json.arr sf.toArray),
-      ("wf", Json.bool (sf.all fun x => flag "guard" x && !flag "k3" x && flag "accepts" x)),
+      ("wf", Json.bool (sf.all fun x => flag "guard" x && flag "accepts" x)),
       ("sloc", nj ((files.map fun f => (countedL f).length).sum))])]
 
 def handlers : List (String × (Json → Json)) := [("c06text", handle)]
